@@ -776,6 +776,53 @@ func (f *frame) enterCutLoop(n *node, heap *Heap) *Heap {
 			break
 		}
 		n.env[phi] = x.havoc(phi.Type(), "loop."+phi.Comment)
+		// a pointer that the loop sets to the address of an element of a slice (and that is nil
+		// or such an address on entry) is, at the head of an arbitrary iteration, nil or the
+		// address of an element of that slice: same backing array, unknown index
+		if _, isPtr := phi.Type().Underlying().(*types.Pointer); isPtr {
+			var coll *Val
+			var collX ssa.Value
+			okShape := true
+			for _, e := range phi.Edges {
+				switch ev := e.(type) {
+				case *ssa.IndexAddr:
+					if _, isSl := ev.X.Type().Underlying().(*types.Slice); !isSl {
+						okShape = false
+						break
+					}
+					if _, isPhi := ev.X.(*ssa.Phi); isPhi || (collX != nil && collX != ev.X) {
+						okShape = false // the slice itself changes in the loop, or two slices
+						break
+					}
+					collX = ev.X
+					if cv, have := n.env[ev.X]; have && len(cv.C) == 4 {
+						c := cv
+						coll = &c
+					} else if p, isParam := ev.X.(*ssa.Parameter); isParam {
+						if cv, have := f.paramVals[p]; have && len(cv.C) == 4 {
+							c := cv
+							coll = &c
+						}
+					}
+				case *ssa.Const:
+					if !ev.IsNil() {
+						okShape = false
+					}
+				case *ssa.Phi:
+					if ev != phi {
+						okShape = false
+					}
+				default:
+					okShape = false
+				}
+			}
+			if okShape && coll != nil {
+				isNil := x.g.Const("loop."+phi.Comment+".nil", SortBool)
+				idx := x.g.Const("loop."+phi.Comment+".idx", SortBV64)
+				x.g.Assume(and("(bvuge "+idx+" "+coll.C[1]+")", "(bvult "+idx+" (bvadd "+coll.C[1]+" "+coll.C[2]+"))"))
+				n.env[phi] = Val{T: phi.Type(), C: []string{x.g.Fresh(SortRef, ite(isNil, NilRef, coll.C[0]))}, Key: x.sliceKey(*coll), Idx: idx, Old: coll.Old}
+			}
+		}
 	}
 	// an enclosing cut loop sees everything this loop writes: handled by activeEpochs
 	// The arbitrary iteration is reached under a reach variable of its own (it implies the
@@ -795,25 +842,30 @@ func (f *frame) enterCutLoop(n *node, heap *Heap) *Heap {
 		if !ok {
 			break
 		}
-		if phi.Comment != "rangeindex" || len(phi.Edges) != 2 {
+		if phi.Comment != "rangeindex" || len(phi.Edges) < 2 {
 			continue
 		}
-		minus1, plus1 := false, false
+		// every edge is the constant -1 or the phi plus one (several back edges: `continue`)
+		minus1, plus1, other := false, false, false
 		for _, e := range phi.Edges {
+			matched := false
 			if k, ok := e.(*ssa.Const); ok && k.Value != nil && k.Value.Kind() == constant.Int {
 				if v, exact := constant.Int64Val(k.Value); exact && v == -1 {
-					minus1 = true
+					minus1, matched = true, true
 				}
 			}
 			if b, ok := e.(*ssa.BinOp); ok && b.Op == token.ADD && b.X == phi {
 				if k, ok := b.Y.(*ssa.Const); ok && k.Value != nil {
 					if v, exact := constant.Int64Val(k.Value); exact && v == 1 {
-						plus1 = true
+						plus1, matched = true, true
 					}
 				}
 			}
+			if !matched {
+				other = true
+			}
 		}
-		if minus1 && plus1 {
+		if minus1 && plus1 && !other {
 			if v := n.env[phi]; len(v.C) == 1 {
 				// ... and below the length of the slice, which is below 2^62
 				x.g.Assume(implies(head, and("(bvsge "+v.C[0]+" "+bvLit(^uint64(0), 64)+")", "(bvslt "+v.C[0]+" "+bvLit(1<<62, 64)+")")))
@@ -922,7 +974,13 @@ func (f *frame) evalInvariant(li *loopInfo, inv *Clause, at *node, slot int, hea
 				// the definition that reaches the loop head
 				uniq = map[ssa.Value]bool{v: true}
 			} else {
-				unsup("invariant of %s names %q which is neither loop-carried in loop%d nor uniquely defined", f.fn.Name(), b.Name, li.ordinal)
+				// The local does not exist (any more) in a form the invariant can name: the
+				// invariant is left out, both as an assumption and as an obligation (sound: it
+				// only weakens what the rest of the proof may use). Reporting it would turn a
+				// renamed local into an alarm; what the invariant was needed for fails instead
+				// if it is still needed.
+				x.note("invariant loop%d.%d of %s is left out: it names %q, which is neither loop-carried nor uniquely defined", li.ordinal, inv.N, f.fn.Name(), b.Name)
+				return "true", "true"
 			}
 		}
 		for v := range uniq {
